@@ -31,10 +31,10 @@ impl Gitignore {
     pub fn matched(&self, p: &PathS, is_dir: bool, env: &mut IEnv) -> (r: Match<&Glob>)
         requires
             // C03: an ignore file is only ever asked about paths inside the directory it applies in
-            path_anc(self.root, *p), // OBL:C03.match_path.only_ignore_files_of_ancestor_directories_are_consulted
+            path_anc(self.root, *p), // OBL:C03+C14.match_path.only_ignore_files_of_ancestor_directories_are_consulted
             0 <= old(env).mark@ <= old(env).consulted@.len(), walk_ok(*p, is_dir, cur(old(env)), Match::<Glob>::None),
             // nearest first, each file at most once
-            cur(old(env)).len() > 0 ==> disp_len(self.root) < disp_len(cur(old(env)).last().g.root), // OBL:C03.match_path.files_are_consulted_nearest_first_each_once
+            cur(old(env)).len() > 0 ==> disp_len(self.root) < disp_len(cur(old(env)).last().g.root), // OBL:C03+C14.match_path.files_are_consulted_nearest_first_each_once
         ensures
             view_match(r) == g_matched(*self, *p, is_dir), final(env).mark == old(env).mark, final(env).consulted@ == old(env).consulted@.push(Asked { g: *self, parents: false }),
             walk_ok(*p, is_dir, cur(final(env)), view_match(r)), cur(final(env)).len() == cur(old(env)).len() + 1, cur(final(env)).last() == (Asked { g: *self, parents: false }),
@@ -47,9 +47,9 @@ impl Gitignore {
     }
     pub fn matched_path_or_any_parents(&self, p: &PathS, is_dir: bool, env: &mut IEnv) -> (r: Match<&Glob>)
         requires
-            path_anc(self.root, *p), // OBL:C03.match_path.only_ignore_files_of_ancestor_directories_are_consulted
+            path_anc(self.root, *p), // OBL:C03+C14.match_path.only_ignore_files_of_ancestor_directories_are_consulted
             0 <= old(env).mark@ <= old(env).consulted@.len(), walk_ok(*p, is_dir, cur(old(env)), Match::<Glob>::None),
-            cur(old(env)).len() > 0 ==> disp_len(self.root) < disp_len(cur(old(env)).last().g.root), // OBL:C03.match_path.files_are_consulted_nearest_first_each_once
+            cur(old(env)).len() > 0 ==> disp_len(self.root) < disp_len(cur(old(env)).last().g.root), // OBL:C03+C14.match_path.files_are_consulted_nearest_first_each_once
         ensures
             view_match(r) == g_matched_parents(*self, *p, is_dir), final(env).mark == old(env).mark, final(env).consulted@ == old(env).consulted@.push(Asked { g: *self, parents: true }),
             walk_ok(*p, is_dir, cur(final(env)), view_match(r)), cur(final(env)).len() == cur(old(env)).len() + 1, cur(final(env)).last() == (Asked { g: *self, parents: true }),
